@@ -273,8 +273,42 @@ def run(cx: Cx):
         cx.ok('R-ORDER', 'decode(): documented lifecycle order on every CFG path, hooks guarded by their own keys, model injected into the '
               'six system/agent-level roles, agent_index = 0..n-1', where=cx.where(fn), function=fn.qualname, paths=len(paths),
               roles=sorted(roles_seen), injections=sorted(inj_seen))
+    # the description a decode works on is its own: decode() writes into it (model, agent_index) and user decode() methods may
+    # consume entries, so a description object that is kept and handed out again makes a second decode see the first one's edits
+    import ast as _ast
+    dec = cx.prog.cls(DEC + 'Decoder')
+    for ci in [dec] + list(cx.prog.subclasses(dec, strict=True)):
+        muts = [k for k, v in ci.class_assigns.items() if k != '__slots__' and isinstance(v, (_ast.List, _ast.Dict, _ast.Set, _ast.ListComp,
+                                                                                            _ast.DictComp, _ast.Call))]
+        if muts:
+            cx.violation('R-SHARED', ci.qualname, 'no-class-level-decoder-state', f"{ci.qualname} keeps class-level mutable state {muts}: "
+                         f"descriptions or results of one decode are visible to the next", where=ci.where)
+        of = ci.methods.get('open_file')
+        if of and ci is not dec:
+            ofn = of[0]
+            stale = None
+            for p_ in cx.walker.paths(ofn, WalkOptions(unroll=1, callee_raises=False)):
+                if p_.end != 'return':
+                    continue
+                v_ = strip_versions(p_.last.data.get('value'))
+                root = v_
+                while isinstance(root, (Attr, Sub)):
+                    root = strip_versions(root.base)
+                kept = [e for e in p_.events if e.kind == 'store' and e.data.get('shared') and strip_versions(e.data.get('value')) == v_]
+                if isinstance(v_, (Attr, Sub)) and isinstance(root, Sym) or kept:
+                    stale = (p_, v_)
+            if stale is not None:
+                cx.violation('R-FRESH', ofn.qualname, 'description-is-parsed-for-this-decode',
+                             f"{ofn.qualname} returns {stale[1]!r}, an object that is kept between calls: the entries one decode writes or "
+                             f"consumes (model, agent_index, whatever user decode() methods pop) are what the next decode of that file sees",
+                             where=cx.where(ofn, stale[0].last.line))
+            else:
+                cx.ok('R-FRESH', f"{ci.name}.open_file hands out a description parsed in the call", where=cx.where(ofn), function=ofn.qualname)
+    from .common import check_no_stateful_memo
+    check_no_stateful_memo(cx)
     from .common import include_premises
     include_premises(cx, ['C01'], 'listed systems are registered with their declared scheduling by add_system')
+    include_premises(cx, ['C02'], 'the declared start / end / frequency are the window the scheduler uses')
     include_premises(cx, ['C04'], 'listed agents are added by Environment.add_agent', only=lambda o: o.function.endswith('Environment.add_agent'))
 
 
